@@ -264,8 +264,20 @@ static void apply(void *vs, int op, int check)
 		srcbuf[n] = 0;
 		int feasible = (long)s->len + n + 9 < MODEL_CAP;
 		MC_COUNT("calls", 1);
-		int rc = n ? sprintbuf(pb, "%s", srcbuf) : sprintbuf(pb, "%s", "");
-		snprintf(what, sizeof what, "sprintbuf(%d bytes)", n);
+		int rc;
+		if (n == 5 || n == 129)
+		{
+			/* a formatted text with a NUL byte inside (%c with 0), short and beyond the 128-byte stack buffer */
+			int h = n / 2;
+			static char tail[512];
+			memcpy(tail, srcbuf + h + 1, (size_t)(n - h - 1));
+			tail[n - h - 1] = 0;
+			srcbuf[h] = 0; /* the model bytes: the pattern with byte h replaced by NUL */
+			rc = sprintbuf(pb, "%s%c%s", srcbuf, 0, tail);
+		}
+		else
+			rc = n ? sprintbuf(pb, "%s", srcbuf) : sprintbuf(pb, "%s", "");
+		snprintf(what, sizeof what, "sprintbuf(%d bytes%s)", n, (n == 5 || n == 129) ? ", a NUL inside" : "");
 		if (feasible)
 		{
 			if (check && rc != n)
